@@ -14,6 +14,8 @@
 import GilVerif.Gen.C17
 import GilVerif.Model.C17
 import Mathlib.Tactic.Ring
+import Mathlib.Tactic.Linarith
+import Mathlib.Tactic.LinearCombination
 
 set_option linter.unusedTactic false
 set_option linter.unusedSimpArgs false
@@ -147,5 +149,29 @@ theorem C17_kernel_chain_apply (ms : List M6) (m : M6) (p : Int × Int) :
   induction ms generalizing m with
   | nil => rfl
   | cons x xs ih => simp only [List.foldl_cons]; rw [ih, C17_kernel_apply_mul_assign]
+
+/-! ### inverse, integer instantiation: exact for unimodular matrices -/
+
+private theorem tdiv_unit (x D : Int) (h : D = 1 ∨ D = -1) : Int.tdiv x D = x * D := by
+  rcases h with h | h <;> subst h <;> simp [Int.tdiv_neg]
+
+/-- `inverse(m)` for `matrix3x2<long>` with determinant ±1 (truncating division is exact there): `inverse(m) * m = m * inverse(m) = identity`,
+    every entry, over the generated `inverse` and the generated product -/
+theorem C17_kernel_inverse_unimodular (a b c d e f : Int) (h : a * d - b * c = 1 ∨ a * d - b * c = -1) :
+    mulT (mat_inverse a b c d e f) (a, b, c, d, e, f) = (1, 0, 0, 1, 0, 0) ∧
+    mulT (a, b, c, d, e, f) (mat_inverse a b c d e f) = (1, 0, 0, 1, 0, 0) := by
+  have hDD : (a * d - b * c) * (a * d - b * c) = 1 := by rcases h with h | h <;> rw [h] <;> rfl
+  rcases h with h | h <;> constructor <;>
+    simp (disch := first | (left; linarith) | (right; linarith)) only [mulT, mat_mul, mat_inverse, tdiv_unit] <;>
+    (refine Prod.ext ?_ (Prod.ext ?_ (Prod.ext ?_ (Prod.ext ?_ (Prod.ext ?_ ?_)))) <;> (try dsimp only) <;>
+      first | ring1 | linear_combination hDD | linear_combination (-e) * hDD | linear_combination (-f) * hDD)
+
+example : (2 : Int) * 1 - 1 * 1 = 1 ∨ (2 : Int) * 1 - 1 * 1 = -1 := by decide
+example : mat_inverse 2 1 1 1 3 (-4) = (1, -1, -1, 2, -7, 11) := by decide
+
+/-- … and it maps points back: `(p * m) * inverse(m) = p` -/
+theorem C17_kernel_inverse_maps_back (a b c d e f : Int) (h : a * d - b * c = 1 ∨ a * d - b * c = -1) (p : Int × Int) :
+    applyT (mat_inverse a b c d e f) (applyT (a, b, c, d, e, f) p) = p := by
+  rw [← C17_kernel_apply_mul, (C17_kernel_inverse_unimodular a b c d e f h).2, C17_kernel_apply_one]
 
 end GilVerif.Props.C17Kernel
